@@ -368,8 +368,8 @@ func c02(g *Gen) {
 			if b, ok := gt.(*gotypes.Basic); ok {
 				nm = types.Name{Name: b.Name()}
 			}
-			if !inFragment(gt) {
-				continue
+			if !inFragment(gt) || c02unexported(gt, map[gotypes.Type]bool{}) {
+				continue // (an unexported type cannot be named from another package at all)
 			}
 			if obj, ok := u.Package(nm.Package).Types[nm.Name]; ok && obj.Kind != types.Unknown && obj.Kind != types.Unsupported {
 				cands = append(cands, cand{gt, obj})
@@ -493,6 +493,46 @@ func c02(g *Gen) {
 			g.Emit("C02.denotes!", list(atom(out), boolS(useTracker), atom(b.String()), atom(strings.Join(problems, "; "))), boolS(len(problems) == 0), "retypecheck")
 		}
 	}
+}
+
+// c02unexported: does the type expression mention a named type that is not exported?
+func c02unexported(t gotypes.Type, seen map[gotypes.Type]bool) bool {
+	if seen[t] {
+		return false
+	}
+	seen[t] = true
+	switch x := t.(type) {
+	case *gotypes.Named:
+		return x.Obj().Pkg() != nil && !x.Obj().Exported()
+	case *gotypes.Pointer:
+		return c02unexported(x.Elem(), seen)
+	case *gotypes.Slice:
+		return c02unexported(x.Elem(), seen)
+	case *gotypes.Array:
+		return c02unexported(x.Elem(), seen)
+	case *gotypes.Chan:
+		return c02unexported(x.Elem(), seen)
+	case *gotypes.Map:
+		return c02unexported(x.Key(), seen) || c02unexported(x.Elem(), seen)
+	case *gotypes.Struct:
+		for i := 0; i < x.NumFields(); i++ {
+			if c02unexported(x.Field(i).Type(), seen) {
+				return true
+			}
+		}
+	case *gotypes.Signature:
+		for i := 0; i < x.Params().Len(); i++ {
+			if c02unexported(x.Params().At(i).Type(), seen) {
+				return true
+			}
+		}
+		for i := 0; i < x.Results().Len(); i++ {
+			if c02unexported(x.Results().At(i).Type(), seen) {
+				return true
+			}
+		}
+	}
+	return false
 }
 
 // c02foreign collects the packages of named types occurring in t (outside pkg `out`).
